@@ -18,11 +18,12 @@ import (
 type c19Case struct {
 	Kind string `json:"kind"` // length | endless | short | fuzz | flood
 
-	Limit int    `json:"limit"`
-	Len   int    `json:"len"` // total line length, CRLF included
-	Pos   string `json:"pos"` // first | later | auth | afterdata | afterchunk | afterrefused | mailline
-	Split bool   `json:"split"`
-	Debug bool   `json:"debug"` // Server.Debug is set (the traffic is copied to a writer)
+	Limit   int    `json:"limit"`
+	Len     int    `json:"len"` // total line length, CRLF included
+	Pos     string `json:"pos"` // first | later | auth | afterdata | afterchunk | afterrefused | mailline
+	Split   bool   `json:"split"`
+	SplitAt string `json:"split_at"` // with Split: "" = in the middle | lf = right before the LF | crlf = right before the CRLF | 1 = after the first octet
+	Debug   bool   `json:"debug"`    // Server.Debug is set (the traffic is copied to a writer)
 
 	State string `json:"state"` // fresh greeted mail rcpt bdat
 	Line  []byte `json:"line"`
@@ -40,14 +41,14 @@ func init() {
 	}})
 }
 
-var c19States = []string{"fresh", "greeted", "mail", "rcpt", "bdat"}
+var c19States = []string{"fresh", "greeted", "mail", "rcpt", "bdat", "hellorej"}
 
 func c19Run(ctx *core.Ctx) {
 	nFuzz, shortLen := 60000, 3
 	if ctx.Thorough() {
 		nFuzz, shortLen = 5000000, 5
 	}
-	ctx.Rule = fmt.Sprintf("limits {32,64,2000} x total line lengths {limit-2..limit+3, 3*limit} x position {first line, later line, MAIL line, inside an AUTH exchange, after DATA, after a non-LAST BDAT chunk, after a refused BDAT} x {one segment, two segments} x Server.Debug {unset, set}; endless lines fed in 512-octet segments; all strings of length <=%d over {NUL,CR,LF,SP,'A','a',':','<',0xFF} as command lines in 5 session states; %d seeded binary lines / token soups (a third of them MAIL/RCPT lines with a valid path and a soup of parameter fragments: truncated xtext hexchars, utf-8-addr escapes, dates, lists; every extension enabled); mixes of valid commands with 3..6 invalid ones. Oracles: ErrorLog tap (recovered panics), consumption counter of the transport, reply parser, backend log. Non-trivial: every case (hostile by construction); distinct by case.", shortLen, nFuzz)
+	ctx.Rule = fmt.Sprintf("limits {32,64,2000} x total line lengths {limit-2..limit+3, 3*limit} x position {first line, later line, MAIL line, inside an AUTH exchange, after DATA, after a non-LAST BDAT chunk, after a refused BDAT} x {one segment, two segments cut in the middle / after the first octet / right before CRLF / right before LF} x Server.Debug {unset, set}; endless lines fed in 512-octet segments; all strings of length <=%d over {NUL,CR,LF,SP,'A','a',':','<',0xFF} as command lines in 6 session states (fresh, greeted, greeting refused by the backend, MAIL, RCPT, mid-BDAT); %d seeded binary lines / token soups (a quarter of them MAIL/RCPT lines whose path is a soup of path fragments, another quarter MAIL/RCPT lines with a valid path and a soup of parameter fragments: truncated xtext hexchars, utf-8-addr escapes, dates, lists; every extension enabled); mixes of valid commands with 3..6 invalid ones. Oracles: ErrorLog tap (recovered panics), consumption counter of the transport, reply parser, backend log. Non-trivial: every case (hostile by construction); distinct by case.", shortLen, nFuzz)
 	ctx.Assumptions = []string{"lines of exactly limit+1 octets are not judged", "short lines that share a segment with an over-long one are not judged", "an unrecovered panic kills the child process and is reported by the parent as <id>:process-crash"}
 	core.RunCases(ctx, func(emit func(c19Case)) {
 		for _, limit := range []int{32, 64, 2000} {
@@ -58,6 +59,11 @@ func c19Run(ctx *core.Ctx) {
 						for _, mode := range []srvMode{modeSMTP, modeLMTPRcpt} {
 							emit(c19Case{Kind: "length", Limit: limit, Len: L, Pos: pos, Split: split, Mode: mode})
 							emit(c19Case{Kind: "length", Limit: limit, Len: L, Pos: pos, Split: split, Mode: mode, Debug: true})
+							if split {
+								for _, at := range []string{"lf", "crlf", "1"} {
+									emit(c19Case{Kind: "length", Limit: limit, Len: L, Pos: pos, Split: true, SplitAt: at, Mode: mode})
+								}
+							}
 						}
 					}
 				}
@@ -138,6 +144,8 @@ func c19Enter(p *wire.Peer, mode srvMode, state string) bool {
 	case "fresh":
 	case "greeted":
 		cmds = []string{mode.hello()}
+	case "hellorej":
+		cmds = []string{strings.Fields(mode.hello())[0] + " rejected1.test"} // the backend refuses to create a session
 	case "mail":
 		cmds = []string{mode.hello(), "MAIL FROM:<s@x.test>"}
 	case "rcpt":
@@ -161,7 +169,7 @@ func c19Enter(p *wire.Peer, mode srvMode, state string) bool {
 }
 
 func c19Length(ctx *core.Ctx, c c19Case) {
-	ctx.Eval(fmt.Sprintf("length|%d|%d|%s|%v|%s|%v", c.Limit, c.Len, c.Pos, c.Split, c.Mode, c.Debug), true)
+	ctx.Eval(fmt.Sprintf("length|%d|%d|%s|%v|%s|%v|%s", c.Limit, c.Len, c.Pos, c.Split, c.Mode, c.Debug, c.SplitAt), true)
 	rig := c19Rig(c.Mode, c.Limit)
 	if c.Debug {
 		rig.Srv.Debug = io.Discard
@@ -171,7 +179,7 @@ func c19Length(ctx *core.Ctx, c c19Case) {
 	}
 	p := rig.Dial()
 	fail := func(sig, msg string, rs []wire.Reply) {
-		ctx.Violate(sig, msg+fmt.Sprintf(" [limit=%d len=%d pos=%s split=%v mode=%s debug=%v]", c.Limit, c.Len, c.Pos, c.Split, c.Mode, c.Debug), c, witness(rig.Log, rs))
+		ctx.Violate(sig, msg+fmt.Sprintf(" [limit=%d len=%d pos=%s split=%v/%s mode=%s debug=%v]", c.Limit, c.Len, c.Pos, c.Split, c.SplitAt, c.Mode, c.Debug), c, witness(rig.Log, rs))
 	}
 	// the probe line: total length c.Len including CRLF
 	mk := func(prefix string) []byte {
@@ -263,8 +271,20 @@ func c19Length(ctx *core.Ctx, c c19Case) {
 	}
 	before := rig.Log.Len()
 	if c.Split && len(probe) > 4 {
-		p.Send(probe[:len(probe)/2])
-		p.Send(probe[len(probe)/2:])
+		at := len(probe) / 2
+		switch c.SplitAt {
+		case "lf":
+			at = len(probe) - 1
+		case "crlf":
+			at = len(probe) - 2
+		case "1":
+			at = 1
+		}
+		p.Send(probe[:at])
+		if c.SplitAt != "" {
+			p.Raw.WaitPeerIdle(wire.Watchdog) // the first part is consumed by a read of its own
+		}
+		p.Send(probe[at:])
 	} else {
 		p.Send(probe)
 	}
@@ -378,12 +398,34 @@ func c19ParamSoup(seed uint64) ([]byte, string) {
 		"2014-04-03T23:01:00Z", "2014-04-03T23:01:00+25:00", "9999-99-99T99:99:99Z", ";C", "NEVER", "SUCCESS", "FAILURE", "DELAY", "FULL", "HDRS", "7BIT", "8BITMIME", "BINARYMIME", "9BIT",
 		"0", "1", "18446744073709551616", "9223372036854775807", "-", "\x00", "\xff", "\xc3", "\xc3\xa9", "\""}
 	line, state := "MAIL FROM:<a@b.test>", "greeted"
-	if r.Bool() {
+	switch r.Intn(4) {
+	case 0, 1:
 		line, state = "RCPT TO:<a@b.test>", "mail"
+	case 2:
+		state = "hellorej" // the greeting was refused by the backend: there is no session
 	}
 	n := 1 + r.Intn(8)
 	b := []byte(line + " ")
 	for i := 0; i < n; i++ {
+		b = append(b, toks[r.Intn(len(toks))]...)
+	}
+	return b, state
+}
+
+// c19PathSoup builds MAIL/RCPT lines whose path is a soup of path-significant fragments
+// (quotes, backslashes at the very end, brackets, routes).
+func c19PathSoup(seed uint64) ([]byte, string) {
+	r := core.NewRand(seed, 193)
+	toks := []string{"<", ">", "@", "\"", "\\", ".", ":", ",", "a", "abc", " ", "[", "]", "IPv6:", "::1", "127.0.0.1", "\"abc\\", "\"a b\"", "<@r.test:", "x.test", "\xc3\xa9", "\x00", "<>", "\\\"", "\t"}
+	line, state := "MAIL FROM:", "greeted"
+	switch r.Intn(4) {
+	case 1:
+		line, state = "RCPT TO:", "mail"
+	case 2:
+		line, state = "MAIL FROM:", "hellorej"
+	}
+	b := []byte(line)
+	for n := 1 + r.Intn(7); n > 0; n-- {
 		b = append(b, toks[r.Intn(len(toks))]...)
 	}
 	return b, state
@@ -411,8 +453,11 @@ func c19Garbage(ctx *core.Ctx, c c19Case) {
 	line := c.Line
 	if c.Kind == "fuzz" {
 		line = c19FuzzLine(c.Seed)
-		if c.Seed%3 == 1 {
+		switch c.Seed % 4 {
+		case 1:
 			line, c.State = c19ParamSoup(c.Seed)
+		case 2:
+			line, c.State = c19PathSoup(c.Seed)
 		}
 	}
 	ctx.Eval(fmt.Sprintf("%s|%s|%q", c.Kind, c.State, line), true)
